@@ -482,6 +482,9 @@ struct PathNorm<'a> {
     sites: usize,
     /// only substitute `Self::<Assoc>`, leave module qualifiers alone (early pass before the effect inference)
     assoc_only: bool,
+    /// "rename_calls" entries whose key is a module-qualified path (`ed25519::verify`): applied BEFORE the qualifier
+    /// is dropped, so that two free functions of the same name in different modules stay distinguishable
+    qualified: Option<&'a BTreeMap<String, String>>,
 }
 fn is_module_seg(s: &str) -> bool {
     const PRIMS: [&str; 17] = ["i8", "i16", "i32", "i64", "i128", "isize", "u8", "u16", "u32", "u64", "u128", "usize", "bool", "char", "str", "f32", "f64"];
@@ -510,6 +513,16 @@ impl<'a> VisitMut for PathNorm<'a> {
         }
         let n = p.segments.len();
         if n >= 2 {
+            if let Some(q) = self.qualified.filter(|_| is_module_seg(&p.segments[0].ident.to_string())) {
+                let full = clean(&p.to_token_stream().to_string());
+                if let Some(nn) = q.get(full.trim_start_matches("::")) {
+                    if let Ok(np) = syn::parse_str::<Path>(nn) {
+                        *p = np;
+                        self.sites += 1;
+                        return;
+                    }
+                }
+            }
             let mut k = 0;
             while k < n - 1 && is_module_seg(&p.segments[k].ident.to_string()) && p.segments[k].arguments.is_empty() {
                 k += 1;
@@ -1423,7 +1436,7 @@ fn main() {
                 g.file = format!("{} (default of trait {} for {})", f.file, tr, ty);
                 let mut ar = AssocResolver { supers: &c.trait_supers, tr: &tr, assoc: &assoc, bounds: &c.assoc_bounds, fns: &c.fns, need: vec![], errors: vec![] };
                 ar.visit_block_mut(&mut g.block);
-                let mut pn = PathNorm { assoc: &assoc, sites: 0, assoc_only: false };
+                let mut pn = PathNorm { assoc: &assoc, sites: 0, assoc_only: false, qualified: None };
                 pn.visit_signature_mut(&mut g.sig);
                 for e in ar.errors {
                     errors.push(format!("{}: {}", g.key, e));
@@ -1523,7 +1536,7 @@ fn main() {
                 }
             }
             if !assoc.is_empty() {
-                let mut pn = PathNorm { assoc: &assoc, sites: 0, assoc_only: true };
+                let mut pn = PathNorm { assoc: &assoc, sites: 0, assoc_only: true, qualified: None };
                 pn.visit_block_mut(&mut f.block);
             }
         }
@@ -1642,7 +1655,7 @@ fn main() {
             (Some(tn), Some(ty)) => c.trait_impls.iter().find(|t| &t.trait_name == tn && &t.type_name == ty).map(|t| &t.assoc).unwrap_or(&empty_assoc),
             _ => &empty_assoc,
         };
-        let mut pn = PathNorm { assoc: assoc_here, sites: 0, assoc_only: false };
+        let mut pn = PathNorm { assoc: assoc_here, sites: 0, assoc_only: false, qualified: Some(&rc_local) };
         pn.visit_block_mut(&mut block);
         let res = std::panic::catch_unwind(std::panic::AssertUnwindSafe(|| {
             rw.visit_block_mut(&mut block);
